@@ -191,7 +191,11 @@ def gen_c01(r, tier):
                     op['opts']['outpath'] = r.pick(['out.csv', 'out.parquet'])
                     op['opts']['in_place'] = False
             ops.append(op)
-    return {'config': {'frames': frames}, 'ops': ops}
+    return {'config': {'frames': frames,
+                       'identity_fault': r.weighted([(12, None),
+                                                     (1, 'keyerror'),
+                                                     (0.5, 'oserror')])},
+            'ops': ops}
 
 
 def gen_c09(r, tier):
@@ -224,7 +228,11 @@ def gen_c09(r, tier):
                         'frame': r.randrange(nframes),
                         'seed': r.getrandbits(32),
                         'warnings_as_errors': r.chance(0.3)})
-    return {'config': {'frames': frames}, 'ops': ops}
+    return {'config': {'frames': frames,
+                       'identity_fault': r.weighted([(12, None),
+                                                     (1, 'keyerror'),
+                                                     (0.5, 'oserror')])},
+            'ops': ops}
 
 
 def gen_c06(r, tier):
@@ -335,7 +343,19 @@ def execute(plan):
         warnings.simplefilter('ignore')
         ctx.W = W
         base.socket = types.SimpleNamespace(gethostname=lambda: 'simhost')
-        base.getpass = types.SimpleNamespace(getuser=lambda: 'simuser')
+        idf = plan['config'].get('identity_fault')
+
+        def getuser():
+            # a container whose uid has no passwd entry and no USER/LOGNAME:
+            # KeyError from pwd.getpwuid up to Python 3.12, OSError from 3.13
+            if idf:
+                ctx.stats['faults']['getuser_fails_' + idf] += 1
+                ctx.nontrivial = True
+                if idf == 'keyerror':
+                    raise KeyError('getpwuid(): uid not found: 54321')
+                raise OSError('No username set in the environment')
+            return 'simuser'
+        base.getpass = types.SimpleNamespace(getuser=getuser)
         rexpy.memo.clear()
         sys.stdout = io.StringIO()
         sys.stderr = io.StringIO()
